@@ -41,6 +41,11 @@ def generate(rng, tier):
             r, feats = S.stream_hidden_table_nicks(rng)
             cases.append({"recipe": r, "reps": rng.choice([1, 2]), "features": feats})
             continue
+        if rng.random() < 0.1:       # hidden child rows read through a random_reference (row-history copy)
+            r, feats = S.stream_randref_hidden_child(rng)
+            k = rng.choice([1, 2, 3])
+            cases.append({"recipe": r, "reps": k, "ks": S.random_cuts(rng, k), "features": feats})
+            continue
         r, feats = S.gen_recipe(rng, W)
         if rng.random() < 0.3 and factor_hidden_into_macro(rng, r):
             feats = sorted(set(feats) | {"hidden_field_from_macro"})
@@ -68,7 +73,8 @@ def factor_hidden_into_macro(rng, recipe):
 
 
 # ------------------------------------------------------------------ renaming (metamorphic)
-REN = {"__H": "HX", "__h0": "hx0", "__": "hx1", "__-r": "hx2", "__ t": "hx3", "__-s": "HX2", "__p": "hx4"}
+REN = {"__H": "HX", "__h0": "hx0", "__": "hx1", "__-r": "hx2", "__ t": "hx3", "__-s": "HX2", "__p": "hx4",
+       "__kid": "hx5", "__s": "hx6", "__n": "hx7", "__who": "hx8"}
 BACK = {v: k for k, v in REN.items()}
 
 
@@ -143,7 +149,7 @@ def strip_renamed(rows):
                     x = x.replace(vis, BACK[vis])
                 return ["str", x]
             return v
-        out.append([t, [[k, back(v)] for k, v in fs if k not in ("hx0", "hx1", "hx2", "hx3", "hx4")]])
+        out.append([t, [[k, back(v)] for k, v in fs if k not in ("hx0", "hx1", "hx2", "hx3", "hx4", "hx5", "hx6", "hx7", "hx8")]])
     return out
 
 
@@ -330,6 +336,10 @@ def run_impl(case):
         if "ok" in obs:
             ren = run_chain(rename_hidden(case["recipe"]), case["ks"])
             obs["renamed"] = ren.get("ok") if "ok" in ren else {"err": ren["err"], "msg": ren.get("msg", "")[:150]}
+        elif obs.get("err") == "DGE":      # the other direction, as for single runs below
+            ren = run_chain(rename_hidden(case["recipe"]), case["ks"])
+            if "ok" in ren:
+                obs["fails_only_when_hidden"] = True
         return obs
     obs = S.run_recipe(case["recipe"], reps=case["reps"])
     if "ok" in obs:
